@@ -3,7 +3,7 @@ from hypothesis import strategies as st
 
 from asyncfix import FMsg, FTag
 from asyncfix.connection import ConnectionState
-from asyncfix.errors import EncodingError, FIXConnectionError
+from asyncfix.errors import EncodingError, FIXConnectionError, FIXError
 from asyncfix.journaler import Journaler
 from asyncfix.message import FIXMessage, MessageDirection
 from vlib.hyp import run_given
@@ -16,7 +16,8 @@ LEVEL = "exploration"
 RULE = (
     "Hypothesis operation lists (<=25 quick, <=60 thorough) over one real endpoint (both roles) whose journal starts at drawn "
     "counters (1, 2, 999, 2^31-1, 2^31, 2^62 ...): application sends of every class (NewOrderSingle with and without groups, a message with a repeating group the protocol table does not map, "
-    "messages with a non-ASCII value alone or behind a group (must be refused with EncodingError like a refused send), forwarded "
+    "messages with a non-ASCII value alone or behind a group (must be refused with EncodingError like a refused send), a received message whose "
+    "repeated tag the decoder marked as not encodable, forwarded without the framing tags (must fail with a FIXError, consuming nothing), forwarded "
     "message objects that still carry a stale MsgSeqNum / PossDupFlag=N / foreign CompIDs, "
     "Heartbeat, TestRequest through send_msg (must be refused) and through send_test_req, Logon, Logout, ResendRequest, Reject, "
     "SequenceReset and PossDup retransmissions carrying their own number), in every state reached (before Logon, after Logon, "
@@ -33,7 +34,7 @@ ASSUMPTIONS = [
     "journal read back through a second load path (create_or_load on the same journal)",
 ]
 STARTS = [1, 2, 7, 999, 2**31 - 1, 2**31, 2**62]
-SEND = ["D", "Dg", "0", "1", "A", "5", "2", "3", "4own", "PD", "D43N", "D34", "Dug", "Dna", "Dgna"]
+SEND = ["D", "Dg", "0", "1", "A", "5", "2", "3", "4own", "PD", "D43N", "D34", "Dug", "Dna", "Dgna", "Dfw"]
 INB = ["logon", "TR", "GAP", "RR", "HB", "LOW", "BADCOMP", "APP"]
 op = st.one_of(
     st.tuples(st.just("send"), st.sampled_from(SEND)),
@@ -69,6 +70,15 @@ def make_msg(cls, uid, N):
             m.set_group(453, [{448: "p1", 447: "D", 452: 1}])
         m.set(58, "caf\u00e9")
         return m
+    if cls == "Dfw":
+        # a RECEIVED message forwarded by the application (framing tags stripped): the decoder marked its repeated tag 20101
+        # (a group the protocol table does not map) as not encodable, so the send must fail - without consuming a number
+        from asyncfix.codec import Codec
+        from asyncfix.protocol import FIXProtocol44
+        from vlib.reffix import ref_msg
+
+        got = Codec(FIXProtocol44()).decode(ref_msg("D", "X", "Y", 5, [(11, f"fw{uid}"), (20100, 2), (20101, "a"), (20101, "b")]), silent=True)[0]
+        return FIXMessage(got.msg_type, {t: v for t, v in got.tags.items() if t not in ("8", "9", "10", "35", "34", "49", "56", "52")})
     if cls == "D43N":
         # a forwarded / echoed message object: explicit PossDupFlag=N and a stale MsgSeqNum tag -> still a NEW message
         return FIXMessage(FMsg.NEWORDERSINGLE, {11: f"e{uid}", 43: "N", 34: max(N - 1, 1), 52: "20200101-00:00:00.000"})
@@ -175,7 +185,7 @@ def run_history(acc, role, n_out, n_in, logon_first, ops, maxlen, frame_hook=Non
                 r = b.w.call(ep.send_msg(msg))
                 if r[0] == "exc":
                     e = r[1]
-                    if isinstance(e, FIXConnectionError) or (isinstance(e, EncodingError) and cls in ("Dna", "Dgna")):
+                    if isinstance(e, FIXConnectionError) or (isinstance(e, EncodingError) and cls in ("Dna", "Dgna")) or (isinstance(e, FIXError) and cls == "Dfw"):
                         refused += 1
                         w1 = len(b.link.writers[b.side].written)
                         rows1 = len(ep._journaler.recover_messages(ep._session, MessageDirection.OUTBOUND, 0, 2**63 - 1))
